@@ -33,6 +33,7 @@ def norm_id(s):
     prev = None
     out = re.sub(r"#dup\d+", "", s)
     out = re.sub(r"\{[^{}]*\}", "_", out)   # unexpanded const expressions of macro-generated impls
+    out = re.sub(r"&'[a-z_]+ ", "&", out)     # named lifetimes
     while prev != out:
         prev = out
         out = _ARG.sub(_norm_args, out)
